@@ -2,42 +2,53 @@
 # Must-fail corpus (developer self-test, not a registered check): every seeded change in /verif/seeded/<id>/ and the
 # revert of every "fix:" commit recorded in known_findings.json must make the check of its property report a
 # violation; the unchanged tree must not. Works on a scratch copy of /repo's HEAD outside /repo and /verif, which is
-# removed afterwards. Usage: sh /verif/selftest/mustfail.sh [ids...]
+# removed afterwards. Usage: sh /verif/selftest/mustfail.sh [seed ids and/or KF-n ...]
 set -u
 export GOFLAGS=-mod=mod GOPROXY=off GOSUMDB=off GOTOOLCHAIN=local GOWORK=off
 [ -x /verif/bin/govc ] || sh /verif/setup.sh >/dev/null 2>&1
-WT=$(mktemp -d /var/tmp/govc-mustfail-XXXXXX)
-trap 'rm -rf "$WT"' EXIT
-git -C /repo archive HEAD | tar -x -C "$WT"
+WT0=$(mktemp -d /var/tmp/govc-mustfail-XXXXXX)
+trap 'rm -rf "$WT0"' EXIT
+# a scratch clone (so that fix commits can be reverted with a three-way merge), outside /repo and /verif
+git clone -q /repo "$WT0/r" || exit 2
+WT="$WT0/r"
 cp /repo/go.work /repo/go.work.sum "$WT"/ 2>/dev/null
+git -C "$WT" config user.email mustfail@example.invalid; git -C "$WT" config user.name mustfail
 fail=0
 run() { # label prop
-  out=$(/verif/bin/govc check -repo "$WT" -prop "$2" -no-evidence 2>&1 | tail -1)
+  full=$(/verif/bin/govc check -repo "$WT" -prop "$2" -no-evidence 2>&1)
+  out=$(echo "$full" | tail -1)
+  first=$(echo "$full" | grep "^  obligation:" | head -2 | sed 's/^  obligation: *//; s#github.com/risor-io/risor/##' | tr '\n' ' ')
   case "$out" in
     *" 0 violations"*) echo "MISSED  $1 ($2): $out"; fail=1 ;;
-    *violations*) echo "caught  $1 ($2): $out" ;;
+    *violations*) echo "caught  $1 ($2): $out"; echo "        by: $first" ;;
     *) echo "ERROR   $1 ($2): $out"; fail=1 ;;
   esac
 }
-ids=${*:-$(ls /verif/seeded)}
-for id in $ids; do
-  (cd "$WT" && patch -p1 -s < /verif/seeded/$id/patch.diff) || { echo "ERROR   seed $id does not apply"; fail=1; continue; }
+clean() { git -C "$WT" reset -q --hard HEAD; git -C "$WT" clean -q -fd -e go.work -e go.work.sum; }
+seeds=""; kfs=""
+for a in "$@"; do case "$a" in KF-*) kfs="$kfs $a" ;; *) seeds="$seeds $a" ;; esac; done
+[ $# -eq 0 ] && seeds=$(ls /verif/seeded)
+for id in $seeds; do
+  git -C "$WT" apply /verif/seeded/$id/patch.diff 2>/dev/null || (cd "$WT" && patch -p1 -s < /verif/seeded/$id/patch.diff) || { echo "ERROR   seed $id does not apply"; fail=1; clean; continue; }
   run "seed $id" "$(echo $id | cut -c1-3)"
-  (cd "$WT" && patch -p1 -R -s < /verif/seeded/$id/patch.diff)
+  clean
 done
-if [ $# -eq 0 ]; then
-  python3 - <<'PY' > "$WT/.fixed"
-import json
+if [ $# -eq 0 ] || [ -n "$kfs" ]; then
+  python3 - $kfs <<'PY' > "$WT0/fixed"
+import json,sys
+want=set(sys.argv[1:])
 seen=set()
 for f in json.load(open('/verif/known_findings.json'))['findings']:
-    if f.get('status')=='fixed' and (f['commit'],f['property']) not in seen:
+    if f.get('status')=='fixed' and (f['commit'],f['property']) not in seen and (not want or f['kf'] in want):
         seen.add((f['commit'],f['property'])); print(f['kf'],f['property'],f['commit'])
 PY
   while read kf prop commit; do
-    git -C /repo show "$commit" -- . ':(exclude)*_test.go' > "$WT/.fix.diff"
-    (cd "$WT" && patch -p1 -R -s < .fix.diff) || { echo "ERROR   revert of $kf ($commit) does not apply"; fail=1; continue; }
+    if ! git -C "$WT" revert --no-commit "$commit" >/dev/null 2>&1; then
+      git -C "$WT" revert --abort >/dev/null 2>&1; clean
+      echo "ERROR   revert of $kf ($commit) conflicts with later commits"; fail=1; continue
+    fi
     run "revert $kf $commit" "$prop"
-    (cd "$WT" && patch -p1 -s < .fix.diff)
-  done < "$WT/.fixed"
+    clean
+  done < "$WT0/fixed"
 fi
 exit $fail
